@@ -186,6 +186,16 @@ Example C19_all_parallel :
      compute_online_moments_basic_parallel; downsample_1d_mean_parallel_parallel; downsample_2d_mean_parallel_parallel] = true.
 Proof. reflexivity. Qed.
 
+(** in the theorems true division is ONE uninterpreted function [divcast], shared by the parallel threads and by the
+    kernel's Python definition; that is sound only if the compiled parallel alias divides like the definition, i.e. its
+    fastmath flags (regenerated from the njit call) do not allow the reciprocal rewrite x / n -> x * (1 / n), and like its
+    serial twin *)
+Example C19_decimation_divides_like_its_definition :
+  downsample_1d_mean_parallel_recip_division = false /\ downsample_2d_mean_parallel_recip_division = false /\
+  downsample_1d_mean_parallel_recip_division = downsample_1d_mean_recip_division /\
+  downsample_2d_mean_parallel_recip_division = downsample_2d_mean_flat_recip_division.
+Proof. repeat split; reflexivity. Qed.
+
 (** non-vacuity: a concrete kernel call (3 channels, 2 samples) whose threads are not trivial, with an interleaved
     complete schedule (thread 1 first, then alternating) that indeed ends in the sequential memory *)
 Example C19_example_interleaving :
